@@ -58,7 +58,9 @@ func clamp(x, lo, hi *big.Int) *big.Int {
 }
 
 // v4 intervals of interest: the spec's and the configuration's
-func ivs4(c *Cfg) [][2]*big.Int { return append(append([][2]*big.Int{}, spec4...), guardIvs(32, c.G4)...) }
+func ivs4(c *Cfg) [][2]*big.Int {
+	return append(append([][2]*big.Int{}, spec4...), guardIvs(32, c.G4)...)
+}
 
 var base6 = [][2]*big.Int{
 	{big.NewInt(0), big.NewInt(1)},
@@ -284,9 +286,46 @@ func randCeil(r *hx.Rand, c *Cfg, req Pol) Pol {
 				e2.IP = nil
 			}
 			p.Allow = append(p.Allow, e2)
+		} else if r.Chance(1, 3) {
+			// a DIFFERENT entry whose scheme, host and port read the same once written next to each other
+			// (127.0.0.1 + 11434 / 127.0.0.11 + 1434, http + sapi.test / https + api.test): it must not make the
+			// request's entry pass the intersection
+			if t, ok := twin(r, e); ok {
+				p.Allow = append(p.Allow, t)
+			}
 		}
 	}
 	return p
+}
+
+func isDigit(b byte) bool { return b >= '0' && b <= '9' }
+
+// twin returns an entry that differs from e but concatenates to the same text: one character is moved across
+// the host/port boundary (digits only, the port stays a number) or across the scheme/host boundary.
+func twin(r *hx.Rand, e Entry) (Entry, bool) {
+	t := e
+	switch r.Intn(3) {
+	case 0: // first digit of the port goes to the end of the host
+		if len(e.Port) < 2 || !isDigit(e.Port[0]) || e.Host == "" {
+			return t, false
+		}
+		t.Host, t.Port = e.Host+e.Port[:1], e.Port[1:]
+	case 1: // last digit of the host goes to the front of the port
+		if len(e.Host) < 2 || !isDigit(e.Host[len(e.Host)-1]) || e.Port == "" || !isDigit(e.Port[0]) {
+			return t, false
+		}
+		t.Host, t.Port = e.Host[:len(e.Host)-1], e.Host[len(e.Host)-1:]+e.Port
+	default: // the s of https
+		if e.Scheme == "https" {
+			t.Scheme, t.Host = "http", "s"+e.Host
+		} else if e.Scheme == "http" && strings.HasPrefix(e.Host, "s") && len(e.Host) > 1 {
+			t.Scheme, t.Host = "https", e.Host[1:]
+		} else {
+			return t, false
+		}
+	}
+	t.IP = parseIPOpt(t.Host) // an IP-literal host keeps a matching IP field; anything else is a host name entry
+	return t, true
 }
 
 func textForms(a Addr) []string {
